@@ -11,7 +11,7 @@ RULE = ("cases: one upload session of a random file (56 .. 3000 bytes: above the
         "32..1024) with random k-of-N through a real offloaded.Helper / CHKUploadHelper / CHKCiphertextFetcher wired in-process to the "
         "uploader of a real grid client: direct, helper-assisted, interrupted at every read_encrypted call of the transfer and resumed "
         "(same or new Helper object on the same directory, same or different CHUNK_SIZE, a second interruption), two readers with "
-        "fail-over, already-present, one share missing; non-trivial = the session transfers ciphertext or short-circuits; distinct = "
+        "fail-over, already-present, one share missing, grid states with lost share numbers and duplicated ones (copies >= N, distinct < N, above and below k) uploaded directly and through the helper; non-trivial = the session transfers ciphertext or short-circuits; distinct = "
         "distinct (size, chunk size, interruption point, parameters, kind)")
 META = {
     "title": "Helper-assisted uploads are equivalent to direct uploads",
@@ -567,6 +567,96 @@ def one_file(ctx, rig, twin, fi, terms, info):
             n_list([s.shnum for s in shs if s.shnum != victim.shnum]), T.N(k), T.N(n), T.N(seg), T.N(size),
             T.boolean(not reads(tape))))
         info.append(("already-present-decision-vs-model", dict(base, found=n - 1)))
+    # ---- a grid state left by earlier loss and repair: some share numbers gone, others held by several servers,
+    # so that the number of share COPIES reaches N while the number of DISTINCT shares does not.  The helper must
+    # not take that for "already present": from the same state it has to end where a direct upload ends.
+    if n >= 2:
+        import shutil
+        rs = ctx.rng("state", fi)
+        servers = sorted(rig.g.g.servers_by_number)
+        dmin = max(1, -(-n // len(servers)))
+        choices = [d_ for d_ in range(dmin, n) if d_ * len(servers) >= n]
+        below = [d_ for d_ in choices if d_ < k]
+        above = [d_ for d_ in choices if d_ >= k]
+        picks = []
+        if below:
+            picks.append(rs.choice(below))
+        if above:
+            picks.append(rs.choice(above))
+        if not (ctx.tier == "thorough" or ctx.search) and len(picks) > 1:
+            picks = [picks[fi % 2]]
+        for d_ in picks:
+            keep = sorted(rs.sample(range(n), d_))
+            target = n + rs.choice([0, 0, 1, 2])
+
+            def build_state():
+                """all N shares are on the grid -> keep `keep`, copy them around until `target` copies exist"""
+                shs_ = rig.g.find_shares(cap_d)
+                for sh in shs_:
+                    if sh.shnum not in keep:
+                        rig.g.delete_share(sh)
+                holders = {}
+                for sh in rig.g.find_shares(cap_d):
+                    holders.setdefault(sh.shnum, {})[sh.server] = sh
+                copies = sum(len(v) for v in holders.values())
+                progress = True
+                while copies < target and progress:
+                    progress = False
+                    for shnum in keep:
+                        if copies >= target:
+                            break
+                        src = next(iter(holders[shnum].values()))
+                        rel = os.path.relpath(src.path, rig.g.server(src.server).sharedir)
+                        for j in servers:
+                            if j not in holders[shnum]:
+                                dst = os.path.join(rig.g.server(j).sharedir, rel)
+                                os.makedirs(os.path.dirname(dst), exist_ok=True)
+                                shutil.copyfile(src.path, dst)
+                                holders[shnum][j] = src
+                                copies += 1
+                                progress = True
+                                break
+                found = [sh.shnum for sh in rig.g.find_shares(cap_d)]
+                return found
+            scase = {"state": {"distinct": keep, "copies_target": target}}
+            # (a) direct upload from that state
+            found = build_state()
+            out, _ = rig.upload(data, conv, direct=True)
+            ctx.case(("state-direct", size, k, n, tuple(keep), target), kind="lost-and-duplicated-shares:direct")
+            if out.status != "ok" or out.value.get_uri() != cap_d:
+                raise RuntimeError("direct upload from a state with lost and duplicated shares failed: %s %s" % (out.status, out.error))
+            after_direct = rig.shares(cap_d)
+            # (b) the same state again, now through the helper
+            rig.g.delete_shares(cap_d)
+            out, _ = rig.upload(data, conv, direct=True)
+            if out.status != "ok" or sorted(rig.shares(cap_d)) != list(range(n)):
+                raise RuntimeError("could not re-create the full share set")
+            found = build_state()
+            out, tape = rig.upload(data, conv)
+            ctx.case(("state-helper", size, k, n, tuple(keep), target, len(found)), kind="lost-and-duplicated-shares:helper")
+            scase["state"]["copies"] = len(found)
+            if out.status != "ok" or out.value.get_uri() != cap_d:
+                fail("helper-upload-failed:lost-and-duplicated-shares",
+                     "shares %s of %d on the grid in %d copies: the upload through the helper ended with %s %s" % (keep, n, len(found), out.status, out.error),
+                     case=scase, expected=cap_d.decode(), observed=str(out.error) if out.status != "ok" else out.value.get_uri().decode())
+            else:
+                after_helper = rig.shares(cap_d)
+                if after_helper != after_direct:
+                    fail("helper-leaves-fewer-shares-than-direct-upload",
+                         "shares %s of %d were on the grid in %d copies: after the upload through the helper the grid holds share numbers %s, "
+                         "after a direct upload from the same state %s" % (keep, n, len(found), sorted(after_helper), sorted(after_direct)),
+                         case=scase, expected=sorted(after_direct), observed=sorted(after_helper))
+                dl = rig.g.run(rig.g.download(cap_d), outcome=True)
+                if dl.status != "ok" or dl.value != data:
+                    fail("helper-reports-success-but-file-not-downloadable",
+                         "shares %s of %d (k=%d) in %d copies: the helper reported success, downloading through the returned cap: %s %s" % (keep, n, k, len(found), dl.status, dl.error),
+                         case=scase, expected="the file", observed=str(dl.error))
+                clean("lost-and-duplicated-shares")
+            terms.append("Bool.eqb (present %s %s %s %s %s) %s" % (n_list(found), T.N(k), T.N(n), T.N(seg), T.N(size), T.boolean(not reads(tape))))
+            info.append(("already-present-decision-vs-model", dict(base, found_copies=found)))
+            # back to the full set for the next state
+            rig.g.delete_shares(cap_d)
+            out, _ = rig.upload(data, conv, direct=True)
     rig.g.delete_shares(cap_d)
     twin.g.delete_shares(cap_d)
     if fi < 2:
